@@ -164,10 +164,10 @@ func genLife(seed int64, allow map[string]bool) *Scenario {
 		}
 	}
 	b.add(Op{Op: "start"})
-	if r.Intn(12) == 0 {
+	if r.Intn(8) == 0 {
 		// the blind structure is not set yet when the first hand is due: tableGameOpen sleeps and retries with the
 		// engine lock held; what lands during the sleep (no lock needed) decides what the retry may do
-		if r.Intn(3) == 0 {
+		if r.Intn(2) == 0 {
 			// ... or the seat manager cannot place two players yet: the second player has bought in but sits in (and the
 			// first adds chips) while the open attempt sleeps -- both calls take no engine lock
 			b.sc.Steps = nil
